@@ -25,7 +25,7 @@ RULE = ("data of size 1..300 from six families (floats over 12 decades with both
         "runs the C engine and the Python engine. Non-trivial: >=2 non-empty bins and (a tie among "
         "counted data, or a datum exactly on a bin edge, or a limit that excludes data, or an empty "
         "interior bin). Distinct = distinct case JSON."
-        " Data are handed over as ndarray, list, strided view, negative-stride view, record-array field or byte-swapped array; a Binner is histogrammed again with a limit dropped / other binning and compared with a fresh Binner.")
+        " Data are handed over as ndarray, list, strided view, negative-stride view, record-array field or byte-swapped array; a Binner is histogrammed again with a limit dropped / other binning and compared with a fresh Binner; the judged dohist(rev=True) call is preceded (2 in 5) by a counts-only dohist on the same Binner.")
 ASSUMPTIONS = [
     "data are finite, |x| <= 1e12 (integers < 2**53): the conversion to float64 done by Binner is exact or "
     "the float64 image is taken as 'the data'",
@@ -167,6 +167,8 @@ def hist_cases(draw, entry, families):
     if entry == "binner":
         case["again"] = draw(st.lists(st.sampled_from(["drop-limits", "drop-min", "drop-max", "same",
                                                        "other-binning"]), min_size=0, max_size=2))
+        # calls made on the Binner before the one that is judged: counts only (no reverse indices asked for)
+        case["prior"] = draw(st.sampled_from([None, None, "counts-only", "counts-only", "counts-only-other-binning"]))
     return case
 
 
@@ -243,6 +245,14 @@ def _call(case, x, vmin, vmax):
                 "histogram() without rev returns different counts: %r vs %r", h0, r[0])
         return r[0], r[1], None
     b = es.Binner(data)
+    if case.get("prior"):
+        kw0 = dict(kw)
+        if case["prior"] == "counts-only-other-binning":
+            if "nbin" in kw0:
+                kw0["nbin"] = kw0["nbin"] + 1
+            else:
+                kw0["binsize"] = kw0["binsize"] * 2.0
+        sut(b.dohist, **kw0)            # whatever this call caches must not change the call judged below
     r = sut(b.dohist, rev=True, **kw)
     if isinstance(r, Raised):
         return r
@@ -330,6 +340,8 @@ def classify_hist(case):
     if not inl.any():
         labs.append("empty-range(ValueError)")
         return labs
+    if case.get("prior"):
+        labs.append("prior-call:" + case["prior"])
     a = hm.assign(x64, d["lo"], d["hi"], d["binsize"], d["nbin"])
     counted = a >= 0
     occ = np.unique(a[counted])
